@@ -10,7 +10,7 @@ ARGS = {
     "equal_to": ("a", [("a", U)]), "not_equal_to": ("a", [("a", U)]),
     "less_than": ("t", [("t", "int")]), "greater_than": ("t", [("t", "int")]),
     "less_than_or_equal_to": ("t", [("t", "int")]), "greater_than_or_equal_to": ("t", [("t", "int")]),
-    "in_": ("[t, 'x', None]", [("t", "int")]), "not_in": ("[t, 'x', None]", [("t", "int")]),
+    "in_": ("[t, None]", [("t", "int")]), "not_in": ("[t, 'x', None]", [("t", "int")]),
     "in_range": ("lo, hi", [("lo", "int"), ("hi", "int")]), "not_in_range": ("lo, hi", [("lo", "int"), ("hi", "int")]),
     "equal_to_approx": ("v, tol", [("v", "int"), ("tol", "int")]),
     "factor_of": ("6", []), "has_factor": ("3", []),
@@ -23,7 +23,7 @@ ARGS = {
     "keys_equal_to": ("'k'", []), "keys_is_instance": ("str", []), "items_contain": ("k=a", [("a", U)]),
     "allowed_keys": ("'k', 'j'", []), "required_keys": ("'k'", []), "forbidden_keys": ("'z'", []),
 }
-EXTRA_PRE = {"in_range": "0 <= hi - lo <= 3", "not_in_range": "0 <= hi - lo <= 3"}
+EXTRA_PRE = {"in_range": "0 <= hi - lo <= 2", "not_in_range": "0 <= hi - lo <= 2"}
 # leaves of every type: symbolic scalars, zeros, None, empty and nested containers, cast-looking strings
 DOC_L = "[u1, u2, 0, '', [], {}, [u1, None], {'k': u2, 'j': 'true'}]"
 DOC_M = "{'a': u1, 1: u2, None: 0, '': '', True: [], 'e': {}, 'n': [u1], 'd': {'k': u2, 'j': None}, 'z': 0}"
